@@ -233,7 +233,17 @@ def main():
             # (panics are recovered per case where the property speaks of them)
             broken.append(("harness-run", "vh exited %d:\n%s" % (rc, out[-3000:])))
         cases = os.path.join(work, "cases.txt")
-        if os.path.exists(cases) and os.path.getsize(cases) > 0:
+        live = os.path.join(work, "live.txt")
+        nlive = 0
+        if os.path.exists(live):
+            for line in open(live, errors="replace"):
+                f = line.rstrip("\n").split("\t")
+                if len(f) != 3:
+                    continue
+                nlive += 1
+                if f[1] != f[2]:
+                    disagreements.append({"case": f[0][:4000], "impl": f[1][:4000], "model": f[2][:4000]})
+        if os.path.exists(cases) and any(not l.startswith("#") for l in open(cases)):
             rc, out = sh("ulimit -v 16000000; ulimit -s unlimited; %s %s %s" % (
                 os.path.join(VERIF, "bin", "driver"), cases, os.path.join(work, "model.txt")), tmo)
             if rc != 0:
@@ -241,7 +251,7 @@ def main():
             else:
                 impl = open(os.path.join(work, "impl.txt")).read().splitlines()
                 model = open(os.path.join(work, "model.txt")).read().splitlines()
-                cl = open(cases).read().splitlines()
+                cl = [l for l in open(cases).read().splitlines() if not l.startswith("#")]
                 if len(impl) != len(model):
                     broken.append(("model-run", "model produced %d observations for %d cases" % (len(model), len(impl))))
                 for i, (x, y) in enumerate(zip(impl, model)):
